@@ -133,9 +133,9 @@ def open_bond_dense(tj):
 
 class Prop:
     ID = "C16"
-    LEVEL = "exploration"
-    COQ_HEADER = ""
-    CHECK_FN = ""
+    LEVEL = "proof"
+    COQ_HEADER = "From TN Require Import Harness.H_C16.\nOpen Scope Z_scope.\n"
+    CHECK_FN = "check"
     RULE = ("weight_mask: every N in 1..6 x uniform alphabet 2..4 x every single weight 0..max+1 (max = largest possible sum), "
             "default alphabet, seeded weight sets (list/tuple/ndarray, unsorted, including weights 0, N, > N and > max) and "
             "seeded per-position alphabets; weight: every N in 1..6 x alphabet 2..4 (+ default, + per-position); "
@@ -152,7 +152,7 @@ class Prop:
     ASSUMPTIONS = ["weight lists are sets (no duplicates); all weights are non-negative",
                    "accepted_inputs inputs are plain TT tensors (no Tucker factors, no CP cores, not batched)",
                    "tables are exhaustive only up to N = 6 and alphabet size 4"]
-    THEOREMS = []
+    THEOREMS = ["C16_one_hot", "C16_mask", "C16_mask_01", "C16_weight", "C16_accepted"]
 
     # ---------------------------------------------------------------- generation
     def generate(self, rng, tier):
@@ -395,4 +395,30 @@ class Prop:
         return hashlib.sha1(json.dumps({k: v for k, v in case.items() if k != "tags"}, sort_keys=True).encode()).hexdigest()
 
     def coq_term(self, case, res):
+        if not res.get("ok"):
+            return None
+        op = case["op"]
+        nl = lambda xs: coq_natlist(xs)
+        rows = lambda rr: "[" + "; ".join(nl(r) for r in rr) + "]"
+        if op == "accepted_inputs":
+            tj = case["t"]
+            ints = all(float(v).is_integer() for m in tj["modes"] for v in flat(m["core"])) and \
+                all(m["U"] is None and m["kind"] == "tt" for m in tj["modes"])
+            if not ints or len(res["rows"]) > 2000:
+                return None
+            return "mkCase (OAccepted %s) [] %s" % (coq_tensor(tj), rows(res["rows"]))
+        N = case["N"]
+        al = alphabet(N, case["nsymbols"])
+        dense = canon_dense(res["dense"])
+        if dense is None:
+            dense = [10 ** 9]
+        if op == "weight_mask":
+            w = case["weight"]
+            w = [int(w)] if not isinstance(w, (list, tuple)) else [int(x) for x in w]
+            return "mkCase (OMask %s %s) %s []" % (nl(w), nl(al), coq_list(dense))
+        if op == "weight":
+            return "mkCase (OWeight %s) %s []" % (nl(al), coq_list(dense))
+        if op == "weight_one_hot":
+            r = case["r"] if case["r"] is not None else N + 1
+            return "mkCase (OOneHot %d %s) %s []" % (r, nl(al), coq_list(dense))
         return None
